@@ -4,17 +4,18 @@
 #include "node_common.h"
 
 typedef struct { uint8_t valid, type, active, pending, sync_cnt; uint16_t inh_cfg, evt_cfg, inh, evt, inh_rem, ev_rem; } MT;
-static struct { uint8_t op; MT t[2]; } M;
-static int SYNC_N;
+static struct { uint8_t op; uint8_t map0; MT t[2]; } M;      /* map0: 3 = TPDO0 maps {A8,P16,B8[0]}, 2 = {A8,P16} (initial), 1 = {A8} */
+static int SYNC_N, TWO_EVENT;
 
-enum { E_TRIG0, E_TRIGOBJ, E_WR_CHG, E_WR_SAME, E_WR_P16, E_SYNC, E_TICK, E_START, E_PREOP, E_STOP, E_RESET, E_INVAL, E_REVAL, E_TYPE254, E_TYPE255, E_INH0, E_INH2, E_INH3, E_EVT0, E_EVT3, E_EVT4, E_N };
+enum { E_TRIG0, E_TRIGOBJ, E_WR_CHG, E_WR_SAME, E_WR_P16, E_SYNC, E_TICK, E_START, E_PREOP, E_STOP, E_RESET, E_INVAL, E_REVAL, E_TYPE254, E_TYPE255, E_INH0, E_INH2, E_INH3, E_EVT0, E_EVT3, E_EVT4, E_REMAP1, E_REMAP3, E_WR_A16, E_N };
 static const char *const EN[] = { "COTPdoTrigPdo(0)", "COTPdoTrigObj(async object)", "write async object (changed)", "write async object (same value)", "write second mapped object", "SYNC", "tick", "NMT start", "NMT pre-op", "NMT stop",
-    "NMT reset communication", "SDO 1800h:1 invalid", "SDO 1800h:1 valid", "SDO 1800h:2=254", "SDO 1800h:2=255", "SDO 1800h:3=0", "SDO 1800h:3=2 ticks", "SDO 1800h:3=3 ticks", "SDO 1800h:5=0", "SDO 1800h:5=3 ticks", "SDO 1800h:5=4 ticks" };
+    "NMT reset communication", "SDO 1800h:1 invalid", "SDO 1800h:1 valid", "SDO 1800h:2=254", "SDO 1800h:2=255", "SDO 1800h:3=0", "SDO 1800h:3=2 ticks", "SDO 1800h:3=3 ticks", "SDO 1800h:5=0", "SDO 1800h:5=3 ticks", "SDO 1800h:5=4 ticks", "re-map TPDO0 to 1 object", "re-map TPDO0 to 3 objects", "write async object of TPDO1 (changed)" };
 
 static const char *cfg_name(int c)
 {
     static char b[64]; static const int SN[] = { 1, 2, 3, 240 };
-    snprintf(b, sizeof b, "TPDO0 type %d inhibit %d event %d; TPDO1 sync type %d%s", 254 + (c / 9) % 2, (int[]){ 0, 2, 3 }[(c / 3) % 3], (int[]){ 0, 3, 4 }[c % 3], SN[c % 4], c >= 18 ? " started OPERATIONAL" : "");
+    if (c >= 36) snprintf(b, sizeof b, "TPDO0 type %d inhibit %d event %d; TPDO1 event-driven; OPERATIONAL", 254 + (c / 9) % 2, (int[]){ 0, 2, 3 }[(c / 3) % 3], (int[]){ 0, 3, 4 }[c % 3]);
+    else snprintf(b, sizeof b, "TPDO0 type %d inhibit %d event %d; TPDO1 sync type %d%s", 254 + (c / 9) % 2, (int[]){ 0, 2, 3 }[(c / 3) % 3], (int[]){ 0, 3, 4 }[c % 3], SN[c % 4], c >= 18 ? " started OPERATIONAL" : "");
     return b;
 }
 
@@ -27,14 +28,14 @@ static int build(int cfg)
     NC.n_tpdo = 2;
     NC.tpdo[0].present = 1; NC.tpdo[0].cobid = 0x40000181u; NC.tpdo[0].type = (uint8_t)(254 + (c / 9) % 2); NC.tpdo[0].inhibit = (uint16_t)(INH[(c / 3) % 3] * 10); NC.tpdo[0].event = EVT[c % 3];
     NC.tpdo[0].nmap = 2; NC.tpdo[0].map[0] = NC_MAP(0x2100, 0, 8); NC.tpdo[0].map[1] = NC_MAP(0x2111, 0, 16);
-    SYNC_N = SN[c % 4];
-    NC.tpdo[1].present = 1; NC.tpdo[1].cobid = 0x40000281u; NC.tpdo[1].type = (uint8_t)SYNC_N; NC.tpdo[1].nmap = 1; NC.tpdo[1].map[0] = NC_MAP(0x2110, 0, 8);
+    SYNC_N = SN[c % 4]; TWO_EVENT = cfg >= 36;
+    NC.tpdo[1].present = 1; NC.tpdo[1].cobid = 0x40000281u; NC.tpdo[1].type = (uint8_t)(TWO_EVENT ? 254 : SYNC_N); NC.tpdo[1].nmap = 1; NC.tpdo[1].map[0] = TWO_EVENT ? NC_MAP(0x2101, 0, 16) : NC_MAP(0x2110, 0, 8);
     NC.operational = cfg >= 18;
     nc_build();
     (void)CONodeGetErr(&Node);
     memset(&M, 0, sizeof M);
     M.t[0].valid = 1; M.t[0].type = NC.tpdo[0].type; M.t[0].inh_cfg = INH[(c / 3) % 3]; M.t[0].evt_cfg = EVT[c % 3];
-    M.t[1].valid = 1; M.t[1].type = (uint8_t)SYNC_N;
+    M.t[1].valid = 1; M.t[1].type = (uint8_t)(TWO_EVENT ? 254 : SYNC_N); M.map0 = 2;
     if (NC.operational) { M.op = 1; for (int i = 0; i < 2; i++) { MT *t = &M.t[i]; t->active = 1; t->inh = t->inh_cfg; t->evt = t->type >= 254 ? t->evt_cfg : 0; t->ev_rem = t->evt; } }
     W_REG(M);
     return E_N;
@@ -47,7 +48,8 @@ static void transmit(int i)
 {
     MT *t = &M.t[i]; WFrame *f = &X.f[X.n < 8 ? X.n : 7]; X.n++;
     memset(f, 0, sizeof *f);
-    if (i == 0) { f->id = 0x181; f->dlc = 3; f->d[0] = A8; f->d[1] = (uint8_t)P16; f->d[2] = (uint8_t)(P16 >> 8); }
+    if (i == 0) { f->id = 0x181; f->dlc = (uint8_t)(M.map0 == 1 ? 1 : M.map0 == 2 ? 3 : 4); f->d[0] = A8; if (M.map0 >= 2) { f->d[1] = (uint8_t)P16; f->d[2] = (uint8_t)(P16 >> 8); } if (M.map0 == 3) f->d[3] = B8[0]; }
+    else if (TWO_EVENT) { f->id = 0x281; f->dlc = 2; f->d[0] = (uint8_t)A16; f->d[1] = (uint8_t)(A16 >> 8); }
     else { f->id = 0x281; f->dlc = 1; f->d[0] = P8; }
     if (t->inh) t->inh_rem = t->inh;
     if (t->evt) t->ev_rem = t->evt;
@@ -74,6 +76,23 @@ static int step(int e)
         { uint8_t old = A8; A8 = nv; trigger(0); A8 = old; }
         (void)CODictWrByte(&Node.Dict, CO_DEV(0x2100, 0), nv); break; }
     case E_WR_SAME: (void)CODictWrByte(&Node.Dict, CO_DEV(0x2100, 0), A8); break;
+    case E_WR_A16: { uint16_t nv = (uint16_t)(A16 == 0x3344 ? 0x4433 : 0x3344);
+        if (!TWO_EVENT) return MC_SKIP;
+        { uint16_t old = A16; A16 = nv; trigger(1); A16 = old; }
+        (void)CODictWrWord(&Node.Dict, CO_DEV(0x2101, 0), nv); break; }
+    case E_REMAP1: case E_REMAP3: {
+        /* the CiA 301 re-mapping procedure in one go: invalidate, count 0, entries, count, validate */
+        int n = e == E_REMAP1 ? 1 : 3; uint32_t r = 0;
+        if (!TWO_EVENT || CONmtGetMode(&Node.Nmt) == CO_STOP) return MC_SKIP;
+        r |= nc_sdo_write(0x1800, 1, 0xC0000181u, 4); r |= nc_sdo_write(0x1A00, 0, 0, 1);
+        r |= nc_sdo_write(0x1A00, 1, NC_MAP(0x2100, 0, 8), 4);
+        if (n == 3) { r |= nc_sdo_write(0x1A00, 2, NC_MAP(0x2111, 0, 16), 4); r |= nc_sdo_write(0x1A00, 3, NC_MAP(0x2113, 1, 8), 4); }
+        r |= nc_sdo_write(0x1A00, 0, (uint32_t)n, 1);
+        M.t[0].valid = 0; deactivate(0); M.map0 = (uint8_t)n;
+        r |= nc_sdo_write(0x1800, 1, 0x40000181u, 4);
+        M.t[0].valid = 1; activate(0);
+        if (r != 0) mc_fail("tpdo-param-write", "re-mapping procedure refused (%08X)", r);
+        break; }
     case E_WR_P16: (void)CODictWrWord(&Node.Dict, CO_DEV(0x2111, 0), (uint16_t)(P16 == 0x5566 ? 0x6655 : 0x5566)); break;     /* mapped but not asynchronous: no trigger */
     case E_SYNC:
         for (int i = 0; i < 2; i++) { MT *t = &M.t[i]; if (t->active && t->type >= 1 && t->type <= 240) { if (++t->sync_cnt == t->type) { t->sync_cnt = 0; transmit(i); } } }
@@ -133,5 +152,5 @@ static int step(int e)
     return MC_OK;
 }
 
-static const mc_harness H = { "C12", "c12", 36, cfg_name, build, ev_name, step, 8, 7 };
+static const mc_harness H = { "C12", "c12", 54, cfg_name, build, ev_name, step, 8, 7 };
 int main(int argc, char **argv) { return mc_main(argc, argv, &H); }
